@@ -1,6 +1,6 @@
 """C05 — models documented by a closed-form expression return that expression (structural parts)."""
 from .. import facts, run
-from ..rules import dep, sib, models
+from ..rules import dep, sib, models, footprint
 
 
 def main(tier):
@@ -14,6 +14,7 @@ def main(tier):
     dep.surface_pairing(P, rep)
     models.formulas(P, rep, thorough=(tier == "thorough"))
     models.cooling_formulas(P, rep)
+    footprint.ridge_alias_twins(P, rep)    # (dist, v) of the cooling formulas come from one and the same ridge point
     rep.assumptions.append("Chapman geotherm, mass-conserving slab and tian2019 parameterisations have no independent closed form short "
                            "enough to serve as an oracle: not decided; numerical accuracy not decided")
     rep.explanation = ("Sibling cross-check of all replicated model classes in normal form (one closed form per family), operation "
